@@ -123,7 +123,10 @@ Definition C02_event_ok (c : ccfg) (k : cache) (parent : json) (evs : list ev) (
 Definition delete_guarded (e : ev) : bool :=
   match e_call e with
   | CApi q => match q_verb q with
-              | VDelete => negb (String.eqb (q_uid_pre q) "") && String.eqb (q_prop q) "Background"
+              | VDelete => negb (String.eqb (q_uid_pre q) "") &&
+                           (String.eqb (q_prop q) "Background" ||
+                            (* ControllerRevisions have no dependents: the typed client sends the UID precondition only *)
+                            String.prefix "controllerrevisions." (q_res q))
               | _ => true end
   | _ => true
   end.
@@ -137,7 +140,12 @@ Definition C02_round (c : ccfg) (k : cache) (evs : list ev) : option string :=
       | Some s => Some s
       | None =>
           if negb (forallb delete_guarded evs) then Some "delete-unguarded" else
-          if negb (forallb (fun e => C02_call_ok c k parent (e_call e)) evs) then Some "call-outside-C02-envelope"
+          (* the envelope is about children and the parent; ControllerRevision requests (rolling
+             strategies) are judged by the event clauses and by the check's revision clauses *)
+          if negb (forallb (fun e => match e_call e with
+                                     | CApi q => String.prefix "controllerrevisions." (q_res q)
+                                     | _ => false end || C02_call_ok c k parent (e_call e)) evs)
+          then Some "call-outside-C02-envelope"
           else None
       end
   end.
@@ -361,6 +369,17 @@ Definition only_status_differs (pre post : json) : bool :=
                         | _ => o end in
   jeqb (strip pre) (strip post).
 
+(* the status write: a PUT to the status subresource, or - for a parent kind without one - a
+   whole-object update (one that leaves the finalizers alone: the finalizer step also updates the parent) *)
+Definition is_status_write (c : ccfg) (e : ev) : bool :=
+  match is_api e with
+  | Some q => verb_eqb (q_verb q) VUpdateStatus ||
+              (negb (p_has_status c) && verb_eqb (q_verb q) VUpdate &&
+               jeqb (jget "finalizers" (obj_map (jget "metadata" (obj_map (q_body q)))))
+                    (jget "finalizers" (obj_map (jget "metadata" (obj_map (e_pre e))))))
+  | None => false
+  end.
+
 Definition C11_round (c : ccfg) (parent : json) (evs : list ev) (res : sync_result) : option string :=
   match round_hook evs with
   | None => None
@@ -368,8 +387,7 @@ Definition C11_round (c : ccfg) (parent : json) (evs : list ev) (res : sync_resu
       let sent := jget "parent" (obj_map body) in
       let want := desired_status sent (hr_status r) in
       let pev := parent_events c parent (after_hook evs) in
-      let status_puts := filter (fun e => match is_api e with
-                                          | Some q => verb_eqb (q_verb q) VUpdateStatus | None => false end) pev in
+      let status_puts := filter (is_status_write c) pev in
       match first_some (fun e =>
               match is_api e with
               | Some q =>
@@ -384,7 +402,7 @@ Definition C11_round (c : ccfg) (parent : json) (evs : list ev) (res : sync_resu
           before_each (fun seen e =>
             match is_api e with
             | Some q =>
-                if verb_eqb (q_verb q) VUpdateStatus then
+                if is_status_write c e then
                   match rev (filter (fun e' => match is_api e' with Some q' => verb_eqb (q_verb q') VGet | None => false end) seen) with
                   | g :: _ =>
                       match e_ans g with
@@ -399,6 +417,25 @@ Definition C11_round (c : ccfg) (parent : json) (evs : list ev) (res : sync_resu
                 else None
             | None => None end) [] pev
       end
+  end.
+
+(* converse: a sync that ends well leaves the status equal to the hook's; if the last read of the
+   parent showed another status, a write followed *)
+Definition C11_written_when_different (c : ccfg) (parent : json) (evs : list ev) (res : sync_result) : option string :=
+  match res, round_hook evs with
+  | SDone, Some (_, body, r) =>
+      let sent := jget "parent" (obj_map body) in
+      let want := desired_status sent (hr_status r) in
+      let pev := parent_events c parent (after_hook evs) in
+      if existsb (is_status_write c) pev then None else
+      match rev (filter (fun e => match is_api e with Some q => verb_eqb (q_verb q) VGet | None => false end) pev) with
+      | g :: _ => match e_ans g with
+                  | AObj cur => if String.eqb (get_uid cur) (get_uid parent) && negb (jeqb (jget "status" (obj_map cur)) want)
+                                then Some "status-differs-from-hook-status-but-not-written" else None
+                  | _ => None end
+      | [] => None
+      end
+  | _, _ => None
   end.
 
 (* the status phase is attempted whenever children were reconciled, even if some failed *)
